@@ -253,6 +253,9 @@ func (r *e2eRig) transmit(pl sts.Payload) (int, error) {
 			io.CopyN(io.Discard, enc, n)
 		}
 		if err := st.Receive(file, rd); err != nil {
+			if os.Getenv("VERIF_E2E_DEBUG") != "" {
+				fmt.Fprintf(os.Stderr, "e2e: Receive(%s %d:%d) failed: %v\n", p.GetName(), beg, beg+n, err)
+			}
 			r.event("tx %s -> 206@%d", desc, i)
 			return i, fmt.Errorf("bin failed validation; successful part(s): %d", i)
 		}
